@@ -654,7 +654,8 @@ class InsightsConfig(object):
                     d[key] = parsedconfig.getint(section, key)
                 if key == 'http_timeout':
                     d[key] = parsedconfig.getfloat(section, key)
-                if key in DEFAULT_BOOLS and isinstance(d[key], six.string_types):
+                is_switch = DEFAULT_OPTS.get(key, {}).get('action') in ('store_true', 'store_false')
+                if (key in DEFAULT_BOOLS or is_switch) and isinstance(d[key], six.string_types):
                     d[key] = parsedconfig.getboolean(section, key)
             except ValueError as e:
                 if self._print_errors:
